@@ -130,6 +130,25 @@ theorem run_inv (Q : World → Prop) (fuel : Nat)
   | nil => intro w h; exact h
   | cons op rest ih => intro w h; exact ih _ (hstep w op h)
 
+/-- World predicates: preserved by handler calls, leaf messages, funding and sink changes ⇒
+preserved by every step of a history. -/
+theorem step_inv (Q : World → Prop)
+    (hcall : ∀ blk w snd em s' out, Q w → execute w.ms blk snd em = .ok (s', out) →
+        Q { w with ms := s', log := w.log ++ [eventOf w.ms snd em] })
+    (hleaf : ∀ w m w', Q w → leaf w m = .ok w' → Q w')
+    (hbank : ∀ w b, Q w → Q { w with bank := b })
+    (hsink : ∀ w b, Q w → Q { w with sinkOk := b })
+    (fuel : Nat) (w : World) (op : Op) (hq : Q w) : Q (step fuel w op) := by
+  unfold step
+  split
+  · split
+    · rename_i w' htx; exact tx_inv Q op.blk (hcall op.blk) hleaf hq htx
+    · exact hq
+  · split
+    · exact hbank _ _ hq
+    · exact hq
+  · exact hsink _ _ hq
+
 /-! ## the invariant of the multisig state -/
 
 /-- * the core is well-formed (`Cw3Core.WF`: ids, one ballot per key, tally = Σ ballots),
